@@ -1,0 +1,17 @@
+//go:build verif
+
+// Contracts for package auparse, read by the verifier in /verif (build tag
+// verif). Comments only; no code is added to the package.
+
+package auparse
+
+// ---------------------------------------------------------------------------
+// Parse: either an error and no message, or a fresh message and no error.
+// offset is an index into the text after the header's closing parenthesis,
+// hence never beyond RawData (Data() relies on it).
+//
+//@ func auparse.Parse
+//@ modifies alloc
+//@ ensures[C04] (result1 == nil) == (result0 != nil)
+//@ ensures[C04] result0 != nil ==> fresh(result0) && result0.RecordType == typ && result0.data == nil && isNil(result0.error)
+//@ ensures[C05] result0 != nil ==> -1 <= result0.offset && result0.offset <= len(result0.RawData)
